@@ -267,7 +267,7 @@ theorem stepOps_unsafe (c : Config) (hs : c.safe = false) (g : Flags) (hg : g.al
           (if g.isSync then
              [.init, .fromInertial] ++ driftOps c true ++ stepTail c ++ [.advT (.frac 1 2)]
            else
-             [.init] ++ (syncOps c g).1 ++ [.warn, .fromInertial] ++ driftOps c (syncOps c g).2.isSync ++
+             [.init] ++ (syncOps c g).1 ++ [.warn, .fromInertial] ++ driftOps c (c.p1fix || (syncOps c g).2.isSync) ++
                stepTail c ++ [.advT (.frac 1 2)])
         else [.init] ++ driftOps c g.isSync ++ stepTail c ++ [.advT (.frac 1 2)],
        { isSync := false, recalc := false, allocated := true }) := by
@@ -276,7 +276,7 @@ theorem stepOps_unsafe (c : Config) (hs : c.safe = false) (g : Flags) (hg : g.al
   cases isSync <;> cases recalc <;>
     simp [stepOps, part1Ops, part2Ops, hs, initF, driftOps, stepTail, List.append_assoc]
   all_goals
-    (cases hk : c.keep <;> simp [syncOps, initF, hk])
+    (cases hk : c.keep <;> cases hp : c.p1fix <;> simp [syncOps, initF, hk, hp])
 
 /-! ### `saved` is written only by `savePJ` -/
 
@@ -381,9 +381,9 @@ theorem step_pj_determined (c : Config) (hs : c.safe = false) (g : Flags)
     simpa [List.append_assoc] using this
   · -- recalculating while unsynchronised: synchronize first, then from_inertial
     have e : [Prim.init] ++ (syncOps c g).1 ++ [Prim.warn, Prim.fromInertial] ++
-        driftOps c (syncOps c g).2.isSync ++ stepTail c ++ [Prim.advT (.frac 1 2)] =
+        driftOps c (c.p1fix || (syncOps c g).2.isSync) ++ stepTail c ++ [Prim.advT (.frac 1 2)] =
         ([Prim.init] ++ (syncOps c g).1) ++ ([Prim.warn, Prim.fromInertial] ++
-        (driftOps c (syncOps c g).2.isSync ++ stepTail c ++ [Prim.advT (.frac 1 2)])) := by
+        (driftOps c (c.p1fix || (syncOps c g).2.isSync) ++ stepTail c ++ [Prim.advT (.frac 1 2)])) := by
       simp [List.append_assoc]
     rw [e, transferList_append, transferList_append]
     have hs' : (initF g).isSync = false := by rw [initF_of_allocated hg]; exact hi
